@@ -6,7 +6,7 @@
    NewTensor, TCopy, NewNet, Add, AddNet, Pop, PopTags, Delete, SetItem,
    TModInds, TModTags, TReindex, TRetag, TAddTag, TDropTags, NReindex, NRetag,
    NAddTag, NDropTags, Copy, DeepCopy, Select, SelectWithout, Partition,
-   PartitionTensors, MakeTidsConsecutive, Kill.
+   PartitionTensors, MakeTidsConsecutive, Kill, RemoveAll.
 
    Inv h: for every live network m
      - ind_map / tag_map entry of a label = the tids a fresh scan of the
